@@ -184,11 +184,21 @@ def parseGitHeaderName (r : Bytes) (strip : Int) : Except Exn Bytes :=
             match consumeStr (str " b/") r with
             | some _ => acc
             | none => go fuel rest (acc ++ [c])
-      .ok (stripPath (go (r.length + 1) r []) strip)
+      -- the name may itself contain " b/": prefer the place where both halves name the same file ("a/X b/X")
+      let split : Option Bytes :=
+        if (str "a/").isPrefixOf r then
+          (List.range r.length).findSome? fun pos =>
+            if (str " b/").isPrefixOf (r.drop pos) ∧ (r.take pos).drop 2 = r.drop (pos + 3) then some (r.take pos) else none
+        else none
+      match split with
+      | some name => .ok (stripPath name strip)
+      | none => .ok (stripPath (go (r.length + 1) r []) strip)
   | [] => .ok (stripPath [] strip)
 
 /-- `parse_git_extended_info`: (recognised, patch) -/
 def parseGitExtendedInfo (r : Bytes) (p : Patch) (strip : Int) : Except Exn (Bool × Patch) :=
+  -- not stripping at all keeps the name as it is (a strip of -1 would mean its base name)
+  let stripOfName : Int := if strip = 0 then 0 else strip - 1
   let parseFilename (r : Bytes) (pfx : String) : Except Exn Bytes :=
     let base : Except Exn Bytes :=
       match r with
@@ -196,9 +206,9 @@ def parseGitExtendedInfo (r : Bytes) (p : Patch) (strip : Int) : Except Exn (Boo
         if c == DQUOTE then
           match parseQuotedString r with
           | .error e => .error e
-          | .ok (s, _) => .ok (stripPath s (strip - 1))
-        else .ok (stripPath r (strip - 1))
-      | [] => .ok (stripPath r (strip - 1))
+          | .ok (s, _) => .ok (stripPath s stripOfName)
+        else .ok (stripPath r stripOfName)
+      | [] => .ok (stripPath r stripOfName)
     match base with
     | .error e => .error e
     | .ok b => .ok (if strip = 0 then str pfx ++ b else b)
